@@ -317,6 +317,16 @@ def scripted_warm(prefix, kinds=("inner", "left", "full"), expects=None, variant
         ([1, 1, 3], [1, 2, 4], [0, 0, 1, 2]),      # left: unique -> duplicate
         ([1, 2, 3], [1, 2, 4], [0, 0, 1, 1]),      # left: duplicate -> unique
         ([1, 2, 3], [3, 2, 1], [1, 0, 0, 5]),      # right: a match appears
+        # the same with edits between *hash-equal* values (hash(-1) == hash(-2), hash(n) == hash(n + 2**61 - 1)): whatever the
+        # first call remembered under a content hash / fingerprint of the key column looks current and is not
+        ([-1, -2, 3], [-2, -2, 4], [1, 0, 0, -1]),                     # right: unique -> duplicate
+        ([-1, -2, 3], [-1, -2, 4], [1, 0, 0, -2]),                     # right: duplicate -> unique
+        ([-2, -2, 3], [-1, -2, 4], [0, 0, 0, -1]),                     # left: unique -> duplicate
+        ([-1, -2, 3], [-1, -2, 4], [0, 0, 0, -2]),                     # left: duplicate -> unique
+        ([5, 7, 8], [5, 5, 9], [1, 0, 1, 5 + 2 ** 61 - 1]),            # right: unique -> duplicate
+        ([5, 7, 8], [5, 5 + 2 ** 61 - 1, 9], [1, 0, 1, 5]),            # right: duplicate -> unique
+        ([-1, 7, 3], [-2, 7, 4], [1, 0, 0, -1]),                       # right: a match disappears
+        ([-1, 7, 3], [-1, 7, 4], [0, 0, 0, -2]),                       # left: a match appears
     ]
     i = 0
     for kind in kinds:
